@@ -49,6 +49,7 @@ _CLS = {
     "overwrite": "OverwriteClassesWrapper", "allgather": "AllgatherClassWrapper", "pseudo": "KDPseudoLabelWrapper",
     "randomclass": "KDRandomClassWrapper", "semi": "SemiWrapper", "smoothing": "LabelSmoothingWrapper", "onehot": "OneHotWrapper",
 }
+_MIX = importlib.import_module(_SW + "kd_mix_wrapper").KDMixWrapper
 W = types.SimpleNamespace(**{k: getattr(importlib.import_module(m), _CLS[k]) for k, m in _MODS.items()})
 
 LEVEL = "exploration"
@@ -67,11 +68,13 @@ ASSUMPTIONS = [
     "SemiWrapper's count is floor(percent * n) evaluated in float64 or exactly; both are accepted",
     "the caller does not modify returned bulk lists; bulk results are compared numerically (list / ndarray / tensor all accepted)",
     "thresholds other than 0 / 1 keep a distance of 1e-5 from every row confidence (row-wise vs table-wise softmax may differ in the last digit), except exact-tie tables: rows of identical logits (class count 2 / 4 / 8) or two identical logits and -inf otherwise, whose confidence is exactly 1/count resp. 0.5 on both paths, with the threshold at or above that value; only bulk == per-sample is judged there, not which side of the tie is right",
+    "the in-place consumer between two encoder reads is KDMixWrapper(mixup_p=1, mixup_alpha=1, seed) over a harness dataset with the same python-int labels (labelled, non-binary layers only); its own outputs are judged by C10 / C11, not here",
+    "bulk label storage of the leaf: list, or ndarray / tensor of dtype int64 / int32 / int16 / uint8 (uint8 only without -1 entries)",
     "reconfiguration through KDRandomClassWrapper's public setters is driven below pass-through wrappers and encoders only (wrappers that compute a table at construction are a function of their constructor arguments); encoders are stacked on KDRandomClassWrapper only while its labels are python ints",
     "in-place edits of wrapped labels are observed through leaves whose bulk accessor hands out their own list / ndarray / tensor (as KDRandomClassWrapper.getall_class does); leaves returning copies cannot show them",
     "encoded vectors: tolerance 1e-5 on the sum, 1e-7 on sign and on the arg-max comparison (float32 arithmetic)",
 ]
-MONITORS = ["reconfigured_layers_checked", "exact_tie_tables", "bulk_vs_item_checked", "range_checked", "other_items_checked", "wrapped_labels_checked", "history_queries_checked",
+MONITORS = ["interference_reads_checked", "evidence_mix_samples_between_reads", "reconfigured_layers_checked", "exact_tie_tables", "bulk_vs_item_checked", "range_checked", "other_items_checked", "wrapped_labels_checked", "history_queries_checked",
             "seed_differential_checked", "encoding_checked", "aliasing_leaf_cases", "topk_bulk_refusals"]
 
 KINDS = list(_MODS)
@@ -139,8 +142,10 @@ def _gen_leaf(rng, kind):
     unl = kind in UNL_OK and rng.random() < 0.3
     if unl:
         cls = [(-1 if rng.random() < 0.2 else c) for c in cls]
-    getall = rng.choice(["list", "list", "list", "ndarray", "tensor"])
+    getall = rng.choice(["list", "list", "list", "ndarray", "ndarray", "tensor", "tensor"])
+    dtypes = ["int64", "int64", "int16", "int32"] + (["uint8", "uint8"] if not unl else [])  # uint8 cannot hold -1
     return {"n": n, "dim": dim, "classes": cls, "style": style, "getall": getall,
+            "dtype": rng.choice(dtypes) if getall != "list" else "int64",
             "alias": rng.random() < (0.7 if getall == "list" else 0.5),
             "item": "tensor0d" if kind in TENSOR_ITEM_OK and rng.random() < 0.3 else "int"}
 
@@ -243,7 +248,7 @@ def _allowed_second(kind1, layer1, n, dim, unl):
 
 
 def gen_cases(run):
-    total = run.n(4200, 256000)
+    total = run.n(3400, 256000)
     rng = run.rng
     for i in range(total):
         kind = KINDS[i % len(KINDS)] if i < 6 * len(KINDS) else rng.choice(KINDS)
@@ -499,7 +504,7 @@ def _read_labels(run, ds, n, key, what):
     return [H.as_scalar(v) for v in vals]
 
 
-def _observe(run, L, below, w, below_labels, dim_in, leaf, leaf_spec, ops_seed, full, aux):
+def _observe(run, L, below, w, below_labels, dim_in, leaf, leaf_spec, ops_seed, full, aux, interfere=True):
     """all observations of one layer; returns dict(items, canon, bulk, dim). `full`=False: only what the seed
     differential needs."""
     k = L["kind"]
@@ -588,6 +593,8 @@ def _observe(run, L, below, w, below_labels, dim_in, leaf, leaf_spec, ops_seed, 
     # ---- labels (or encodings)
     if k in ENCODERS:
         items = _check_encodings(run, L, what, raw, bulk, below_labels, dim_in, dim)
+        if interfere:
+            _encoder_interference(run, L, what, w, below, canon, bulk, below_labels, dim_in, dim, n, ops_seed)
     else:
         items = [H.as_scalar(v) for v in raw]
         bad = [i for i, v in enumerate(items) if v is None]
@@ -627,6 +634,47 @@ def _observe(run, L, below, w, below_labels, dim_in, leaf, leaf_spec, ops_seed, 
 
     _semantics(run, L, what, w, items, bulk, below_labels, dim_in, dim, n, aux)
     return out
+
+
+def _encoder_interference(run, L, what, w, below, canon, bulk, below_labels, dim_in, dim, n, ops_seed):
+    """the caller owns what it gets: between two reads of the same items (i) the vectors returned by a read are
+    modified in place and (ii) the library's own in-place consumer of one-hot vectors (KDMixWrapper with mixup_p=1,
+    over a dataset with the same python-int labels) produces samples; a later read, and a fresh wrapper, must still
+    give the encodings of the first read"""
+    k = L["kind"]
+    if n == 0:
+        return
+    _, again = _real(run, lambda: [w.getitem_class(i) for i in range(n)], f"{k}:item-crash", what)
+    touched = 0
+    for v in again:
+        if torch.is_tensor(v) and v.is_floating_point():
+            v.mul_(0.5).add_(0.25)
+            touched += 1
+    mixed = 0
+    if dim_in >= 2 and all(type(o) is int and o >= 0 for o in below_labels):
+        try:  # the mix wrapper itself is not judged here (C10 / C11): a failure of it only loses this interference
+            mix = _MIX(dataset=H.MixLeaf(below_labels, dim_in), mixup_p=1.0, mixup_alpha=1.0, seed=ops_seed)
+            for i in range(min(n, 12)):
+                mix.getitem_class(i)
+                mixed += 1
+        except Exception:
+            run.count("evidence_mix_consumer_failed")
+    run.count("interference_reads_checked")
+    run.count("evidence_vectors_modified_in_place", touched)
+    run.count("evidence_mix_samples_between_reads", mixed)
+    fresh_w = _ctor(L, below, n, dim_in, None, {})
+    _, fresh_w = _real(run, fresh_w, f"{k}:ctor-crash", what)
+    for name, ds in (("the same wrapper", w), ("a fresh wrapper", fresh_w)):
+        _, later = _real(run, lambda: [ds.getitem_class(i) for i in range(n)], f"{k}:item-crash", what)
+        later_canon = [H.canon_item(v) for v in later]
+        bad = [i for i in range(n) if later_canon[i] != canon[i]]
+        if bad:
+            i = bad[0]
+            run.violation(f"{k}:encoding-depends-on-earlier-calls",
+                          f"{what}: after the vectors of an earlier read were modified in place ({touched}) and {mixed} mixup samples were drawn over the "
+                          f"same labels, {name} encodes sample {i} (label {below_labels[i]}) as {_s(later[i])}; the first read gave {_s(canon[i])}")
+            raise _Abort
+        _check_encodings(run, L, what, later, bulk, below_labels, dim_in, dim)
 
 
 def _classify_bulk(L, items, bulk, below_labels, n):
@@ -815,7 +863,8 @@ def _stack(run, spec, which, full, tmp):
     if which == 1:
         np.random.random(3), torch.rand(2), pyrandom.random()
     leaf = H.Leaf16(n, classes=leaf_spec["classes"], n_classes=leaf_spec["dim"], getall_kind=leaf_spec["getall"],
-                    alias_getall=leaf_spec["alias"], item_kind=leaf_spec["item"])
+                    alias_getall=leaf_spec["alias"], item_kind=leaf_spec["item"],
+                    store_dtype=leaf_spec.get("dtype", "int64"))
     below, below_labels, dim_in = leaf, list(leaf_spec["classes"]), leaf_spec["dim"]
     obs = []
     for li, L in enumerate(spec["layers"]):
@@ -860,7 +909,8 @@ def _reconfigure(run, spec, obs, leaf):
             if L["kind"] in ENCODERS and any(type(v) is not int for v in [below.getitem_class(i) for i in range(n)]):
                 run.count("reconfig_skipped_label_type")  # the encoders document python-int / 0-d tensor labels only
                 return
-            o = _observe(run, L, below, w, below_labels, dim_in, leaf, leaf_spec, spec["ops_seed"] + 101 * (si + 1) + li, True, {})
+            o = _observe(run, L, below, w, below_labels, dim_in, leaf, leaf_spec, spec["ops_seed"] + 101 * (si + 1) + li, True, {},
+                         interfere=si + 1 == len(spec["reconfig"]))
             run.count("reconfigured_layers_checked")
             below, below_labels, dim_in = w, o["items"], o["dim"]
 
@@ -891,7 +941,7 @@ def run_case(run, spec):
     variant = top.get("form") or top.get("mode") or ""
     run.cover("+".join(kinds), variant, min(leaf_spec["n"], 3), "binary" if leaf_spec["dim"] == 1 else "multi",
               "unl" if any(c < 0 for c in leaf_spec["classes"]) else "lab",
-              leaf_spec["getall"] + ("-alias" if leaf_spec["alias"] else ""), leaf_spec["item"])
+              leaf_spec["getall"] + ("-alias" if leaf_spec["alias"] else ""), leaf_spec.get("dtype", "int64"), leaf_spec["item"])
     tmp = _Tmp()
     try:
         A = _stack(run, spec, 0, True, tmp)
